@@ -31,7 +31,9 @@ fn strategy() -> BoxedStrategy<AsyncWorld> {
         .prop_flat_map(|w| {
             let n = w.funcs.len();
             let c = w.calls.len();
-            (Just(w), prop::collection::vec((any::<bool>(), any::<bool>()), n), prop::collection::vec(0u8..3, c))
+            // 0..=2: how the async callee answers; 3, 4: the callee blocks (STARTING / STARTED) and
+            // the host cancels the exported task while it waits (only for async export + import)
+            (Just(w), prop::collection::vec((any::<bool>(), any::<bool>()), n), prop::collection::vec(prop_oneof![4 => 0u8..3, 1 => 3u8..5], c))
         })
         .prop_map(|(world, mut modes, schedule)| {
             // at least one function is async somewhere
@@ -246,6 +248,8 @@ struct AHost {
     import_calls: u32,
     task_returns: u32,
     task_cancels: u32,
+    /// the host cancels the exported task of the current call
+    cancel: bool,
 }
 
 thread_local! {
@@ -472,8 +476,24 @@ unsafe extern "C" fn a_poll(s: u32, p: *mut [u32; 2]) -> u32 {
     }
 }
 unsafe extern "C" fn a_subtask_cancel(h: u32) -> u32 {
-    exec::fail("async-protocol", format!("subtask.cancel({h}): the forwarding guest never drops a call in flight"));
-    4
+    if !ah(|a| a.cancel) {
+        exec::fail("async-protocol", format!("subtask.cancel({h}): the forwarding guest never drops a call in flight unless its task is cancelled"));
+        return 4;
+    }
+    // the callee acknowledges at once: STARTED_CANCELLED (3) if it had not started, else
+    // RETURNED_CANCELLED (4); an undelivered progress event is gone with it
+    ah(|a| match a.subs.get_mut(&h) {
+        Some(s) if !s.dropped && s.state < 2 => {
+            s.state = if s.state == 0 { 3 } else { 4 };
+            s.event = None;
+            s.state
+        }
+        other => {
+            let st = other.map(|s| (s.state, s.dropped));
+            exec::fail("async-protocol", format!("subtask.cancel({h}) of a subtask in state {st:?}"));
+            4
+        }
+    })
 }
 unsafe extern "C" fn a_subtask_drop(h: u32) {
     let st = ah(|a| a.subs.get_mut(&h).map(|s| {
@@ -483,6 +503,8 @@ unsafe extern "C" fn a_subtask_drop(h: u32) {
     }));
     match st {
         Some((2, false, 0, None)) => {}
+        // a cancelled subtask (dropping a waitable takes it out of its set)
+        Some((3 | 4, false, _, None)) => {}
         other => exec::fail("async-protocol", format!("subtask.drop({h}) in state {other:?} (expected: returned, delivered, not joined, not yet dropped)")),
     }
 }
@@ -555,9 +577,12 @@ fn run(so: &std::path::Path, aw: &AsyncWorld, imports: &[(String, String)], eval
         exec::clear_valid();
         ah(|a| {
             a.call = Some(call.clone());
-            a.imm = aw.schedule[ci % aw.schedule.len().max(1)] as u32;
+            let sched = aw.schedule[ci % aw.schedule.len().max(1)] as u32;
+            a.imm = if sched >= 3 { sched - 3 } else { sched };
+            a.cancel = sched >= 3 && aexp && aimp;
             a.import_calls = 0;
             a.task_returns = 0;
+            a.task_cancels = 0;
             a.subs.clear();
         });
         *evals += 1;
@@ -584,6 +609,8 @@ fn run(so: &std::path::Path, aw: &AsyncWorld, imports: &[(String, String)], eval
             let callback: unsafe extern "C" fn(u32, u32, u32) -> u32 = unsafe { std::mem::transmute(lib.sym(&format!("__verif_callback_{f}")).expect("trampoline")) };
             let mut code = ret as u32;
             let mut rounds = 0;
+            let cancel = ah(|a| a.cancel);
+            let mut cancel_sent = false;
             while code & 0xf != 0 {
                 rounds += 1;
                 if rounds > 64 {
@@ -592,6 +619,11 @@ fn run(so: &std::path::Path, aw: &AsyncWorld, imports: &[(String, String)], eval
                 }
                 let ev = match code & 0xf {
                     1 => Some((0, 0, 0)),
+                    // the task waits for its blocked callee: the host cancels it (EVENT_CANCEL)
+                    2 if cancel && !cancel_sent => {
+                        cancel_sent = true;
+                        Some((6, 0, 0))
+                    }
                     2 => {
                         let set = code >> 4;
                         let mut e = take_event(set);
@@ -613,7 +645,12 @@ fn run(so: &std::path::Path, aw: &AsyncWorld, imports: &[(String, String)], eval
                 code = unsafe { callback(e0, e1, e2) };
             }
             let (tr, tc) = ah(|a| (a.task_returns, a.task_cancels));
-            if tr != 1 {
+            if cancel_sent {
+                // its work was dropped: cancellation is signalled exactly once, no result
+                if tc != 1 || tr != 0 {
+                    exec::fail("task-cancel-count", format!("the async export f{f} was cancelled while it waited for its callee: task.cancel was called {tc} times and task.return {tr} times (expected 1 and 0)"));
+                }
+            } else if tr != 1 || tc != 0 {
                 exec::fail("task-return-count", format!("the async export f{f} finished with task.return called {tr} times (task.cancel {tc} times)"));
             }
             if !unsafe { ctx_fn() }.is_null() {
@@ -735,6 +772,12 @@ pub fn run_check(check: &mut Check) {
                 obs.evals = evals;
                 if async_calls > 0 {
                     obs.nontrivial_by(&(&m.wit, &m.variant));
+                }
+                for (ci, c) in aw.world.calls.iter().enumerate() {
+                    let s = aw.schedule[ci % aw.schedule.len().max(1)];
+                    if s >= 3 && aw.modes[c.func] == (true, true) {
+                        obs.label(if s == 3 { "export-task-cancelled:callee-not-started" } else { "export-task-cancelled:callee-started" });
+                    }
                 }
                 for (e, i) in &aw.modes {
                     obs.label(format!("export:{} import:{}", if *e { "async" } else { "sync" }, if *i { "async" } else { "sync" }));
